@@ -198,6 +198,18 @@ claim("C19",
       "sibling tree comparison (C04 rows) + constant-evaluated printf precision lint + codec pairing",
       "DESIGN.md section 3, C19")
 
+claim("C08",
+      "Partial: no address- or environment-derived value reaches an order or an output. (D1) every iteration over a hash "
+      "table either uses a content-based hash - decided from the hash function's body: no pointer-to-integer conversion in "
+      "it or its callees - or is a confirmed order-insensitive site; (D2) sort comparators never order by address; (D3) "
+      "clock/random/pid/environment sources are called directly only from a frozen justified set. These are necessary for "
+      "byte-identical outputs across runs, ASLR and collector modes (the Java back end violated D1 and produced two different "
+      ".java files for one input; repaired). Byte equality itself and uninitialised-memory leakage are not decided.",
+      "Trusted: clang 14 AST; frozen/c08_table_iterations.json and c08_ambient_callers.json (one reason per entry); "
+      "function pointers are not followed in D3.",
+      "who-may-call / who-may-iterate rules with hash-function classification over the whole-program call graph",
+      "DESIGN.md section 3, C08")
+
 PENDING_REASON = "check designed in DESIGN.md but not yet built in this tree; not claimed until it runs"
 
 
